@@ -5,7 +5,7 @@
    `reachable k cap st`: st is reached from the initial state (sender kinds k, receive-queue size cap) by SOME event
    list — every theorem therefore holds for every number of senders, every interleaving, every pattern of commits,
    aborts and time-outs on both sides, every queue size.  One receiver is modelled; receivers share no state. *)
-From PGV Require Import C06.Model C06.Proofs C06.Proofs2 C06.Proofs3.
+From PGV Require Import C06.Model C06.Proofs C06.Proofs2 C06.Proofs3 C06.Proofs4.
 
 (* fifo_exactly_once: for every sender s,
       (what the receiver's committed sections obtained from s) ++ (what is pending from s: reads in progress, backlog,
@@ -110,6 +110,17 @@ Print Assumptions sender_timeout_only_aborts.
 Theorem tick_changes_nothing : forall st st' o, step st RTick = Some (st', o) -> st' = st /\ o = OTick.
 Proof. exact tick_lemma. Qed.
 Print Assumptions tick_changes_nothing.
+
+(* commit_ack_independent_of_receiver: whenever a TCP sender is past its pre-commit and its commit record has not been
+   consumed yet (written or not), the handler that has to consume it and write the acknowledgement is NOT blocked on the
+   receive queue.  So a slow or stopped receiver, or a full queue, can never delay a commit acknowledgement (it delays
+   the NEXT section's pre-commit acknowledgement, which only aborts that section: sender_timeout_only_aborts).  This is
+   why the resend loop of tcpMailboxesRemote.Commit - entered only when the acknowledgement is late - is no event of the
+   model: with a healthy connection it is unreachable unless the handler goroutine itself is not scheduled. *)
+Theorem commit_ack_independent_of_receiver : forall k cap st s,
+  reachable k cap st -> kind st s = KTcp -> awaiting (snd_of st s) -> blocked st s (s_cid (snd_of st s)) = false.
+Proof. exact commit_ack_lemma. Qed.
+Print Assumptions commit_ack_independent_of_receiver.
 
 (* relaxed mailboxes.  While the sender never had to reconnect, what it wrote is what the receiver obtained, holds,
    or what is still in flight on the connection, in order. *)
